@@ -143,7 +143,7 @@ pub fn test_api(c: &ApiCase, ctx: &mut CaseCtx) -> Result<(), String> {
         .map(|op| match op {
             Op::ToggleFiring { text, which, on } => {
                 let t = &texts[pick_idx(*text, texts.len())];
-                let rules = if t.chars().count() <= 160 { super::c05::firing_rules(t) } else { vec![] };
+                let rules = if RELINT_TEXTS.contains(&t.as_str()) { firing_rules_robust(t) } else { vec![] };
                 if rules.is_empty() {
                     Op::SetConfig(vec![])
                 } else {
@@ -445,6 +445,51 @@ pub fn test_api(c: &ApiCase, ctx: &mut CaseCtx) -> Result<(), String> {
     Ok(())
 }
 
+/// short texts on which pattern rules fire
+const RELINT_TEXTS: &[&str] = &[
+    "He is taller then her.",
+    "I could of gone there fore.",
+    "Their is alot of work to to do.",
+    "This is very very good, more then enough.",
+    "As a matter of fact, at the end of the day it is what it is.",
+    "Their is an apple, an problem, teh wrold and a  double space. I could of gone. the the cat",
+];
+
+/// The rules that fire on `text`, each determined with a linter of its own (a helper that reused
+/// one linter would inherit any caching defect of the code under test). Computed once per text.
+fn firing_rules_robust(text: &str) -> Vec<String> {
+    use std::collections::HashMap;
+    use std::sync::{Mutex, OnceLock};
+    static CACHE: OnceLock<Mutex<HashMap<String, Vec<String>>>> = OnceLock::new();
+    let cache = CACHE.get_or_init(|| Mutex::new(HashMap::new()));
+    let mut guard = cache.lock().unwrap();
+    if let Some(v) = guard.get(text) {
+        return v.clone();
+    }
+    let keys = &g::harvest().rule_keys;
+    let out: Mutex<Vec<String>> = Mutex::new(vec![]);
+    std::thread::scope(|sc| {
+        for chunk in keys.chunks(keys.len().div_ceil(16).max(1)) {
+            let out = &out;
+            sc.spawn(move || {
+                let dict = FstDictionary::curated();
+                let doc = Document::new(text, &PlainEnglish, &dict);
+                for k in chunk {
+                    let mut group = LintGroup::new_curated(dict.clone(), DIALECTS[0])
+                        .with_lint_config(crate::generators::ConfigSpec::only(&[k.as_str()]).build());
+                    if crate::core::catch(std::panic::AssertUnwindSafe(|| !group.lint(&doc).is_empty())).unwrap_or(false) {
+                        out.lock().unwrap().push(k.clone());
+                    }
+                }
+            });
+        }
+    });
+    let mut v = out.into_inner().unwrap();
+    v.sort();
+    guard.insert(text.to_string(), v.clone());
+    v
+}
+
 const IMPORTABLE: &[&str] = &[
     "frobnicate", "Zorblax", "qwertz", "naïvetéx", "harperism", "xkcdish", "teh", "wrold",
     // other capitalisations of curated words: reported until imported
@@ -462,7 +507,7 @@ fn api_text() -> BoxedStrategy<String> {
         // an importable word within two characters of other lints
         3 => (g::sel_str(IMPORTABLE), g::sel_str(IMPORTABLE)).prop_map(|(a, b)| format!("I saw an {a} thing and the the {b} cat. We we like {a}.")),
         // short texts on which pattern rules fire
-        2 => g::sel_str(&["He is taller then her.", "I could of gone there fore.", "Their is alot of work to to do.", "This is very very good, more then enough.", "As a matter of fact, at the end of the day it is what it is."]),
+        2 => g::sel_str(RELINT_TEXTS),
     ]
     .boxed()
 }
@@ -498,7 +543,7 @@ pub fn api_strategy(max_ops: usize) -> BoxedStrategy<ApiCase> {
         .prop_map(|(texts, ops, dialect)| ApiCase { texts, ops, dialect });
     // the same text checked again after one of the rules that fire on it was switched
     let relint = (
-        g::sel_str(&["He is taller then her.", "I could of gone there fore.", "Their is alot of work to to do.", "This is very very good, more then enough.", "As a matter of fact, at the end of the day it is what it is.", "Their is an apple, an problem, teh wrold and a  double space. I could of gone. the the cat"]),
+        g::sel_str(RELINT_TEXTS),
         proptest::collection::vec((any::<u16>(), any::<bool>(), any::<bool>()), 1..5),
         any::<bool>(),
         0u8..4,
